@@ -55,6 +55,7 @@ def session_history(rng, nodes, clients, length):
     owner = {}               # c -> client (successful handshake)
     current = {}             # x -> (n, c)
     regmap = {}              # (n, x) -> c registered control connection
+    tunnelled = set()        # connections that only completed a tunnel-typed handshake (registered with a client id, never logged in)
 
     def login(n, c, x):
         old = regmap.get((n, x))
@@ -94,6 +95,8 @@ def session_history(rng, nodes, clients, length):
                 ops.append([AUTHOK, n, c, x, sh])
                 if sh in CONTROL_SHAPES:
                     login(n, c, x)
+                else:
+                    tunnelled.add(c)
             elif r < 0.87:
                 # the auth handler kicked the old connection but the login did not complete (response lost / rejected)
                 ops.append([KICK, n, x, c])
@@ -110,13 +113,21 @@ def session_history(rng, nodes, clients, length):
                 ops.append([AUTHOK, n, c, x, sh])
                 if sh in CONTROL_SHAPES:
                     login(n, c, x)
+                    tunnelled.discard(c)
+                elif c not in owner:
+                    tunnelled.add(c)
         elif k < 0.54:
             if current and rng.random() < 0.7:
                 n, c = current[rng.choice(sorted(current))]
             else:
-                n, c = rng.choice(open_conns)
+                # (not on connections that only did a tunnel-typed handshake: their heartbeat can rebuild the runtime state
+                #  for the tunnel connection when the state is absent — see the report; not modelled)
+                cand = [nc for nc in open_conns if nc[1] not in tunnelled] or open_conns
+                n, c = rng.choice(cand)
                 if rng.random() < 0.1:
                     n = rng.randrange(1, nodes + 1)
+            if c in tunnelled:
+                continue
             ops.append([HEARTBEAT, n, c])
         elif k < 0.72:
             # the end of a connection: prefer OLD ones (the late cleanup), sometimes the current one;
@@ -208,6 +219,11 @@ def scripted(rng):
     for sh in TUNNEL_SHAPES:
         out.append(("tunnel-shape-%d" % sh, [[CONNECT, 1, 1], [AUTHOK, 1, 1, x, sh], [CONNECT, 2, 2], [AUTHOK, 2, 2, x, 0],
                                              [CONNECT, 1, 3], [AUTHOK, 1, 3, x, sh], [HEARTBEAT, 1, 3], [TICK, 2], [HEARTBEAT, 2, 2], [TICK, 2]]))
+    # the runtime-state record: connect A, connect B, late heartbeats of a1 handled after the new login, A reaps a1
+    # (close or stale sweep), heartbeat b1, close b1 — the record must name (B, b1) throughout
+    for reap in ([CLOSE, 1, 1], [STALE, 1, 1]):
+        out.append(("state-late-heartbeat", [[CONNECT, 1, 1], [AUTHOK, 1, 1, x, 0], [HEARTBEAT, 1, 1], [CONNECT, 2, 2], [AUTHOK, 2, 2, x, 0],
+                                              [HEARTBEAT, 1, 1], [HEARTBEAT, 2, 2], [HEARTBEAT, 1, 1], reap, [HEARTBEAT, 2, 2], [CLOSE, 2, 2]]))
     # three nodes, ping-pong, cleanups in reverse order
     out.append(("three-nodes", [[CONNECT, 1, 1], [AUTHOK, 1, 1, x], [CONNECT, 2, 2], [AUTHOK, 2, 2, x], [CONNECT, 3, 3],
                                 [AUTHOK, 3, 3, x], [CLOSE, 2, 2], [HEARTBEAT, 3, 3], [TICK, 2], [CLOSE, 1, 1],
@@ -355,7 +371,8 @@ def case_value(c, o):
             op[1] *= c["unit_ms"]
         ops.append(op)
     return [list(o["variant"]), [PTR[c["backend"]], INCL[c["backend"]]], c["ttl_ms"], 0 if c["mode"] == "store" else 1,
-            list(c["clients"]), ops, [[[list(a) for a in node] for node in step] for step in o["obs"][:n]]]
+            list(c["clients"]), ops, [[[list(a) for a in node] for node in step] for step in o["obs"][:n]],
+            [[[list(a) for a in node] for node in step] for step in (o.get("rs") or [])[:n]]]
 
 
 def shrink(binary, case, key):
